@@ -27,17 +27,42 @@ def st(l):
 def stream(rep, pid, tier, perms):
     wd = vlib.workdir(pid)
     cpath = os.path.join(wd, "cases.ndjson")
-    n, _ = vlib.stream_cases(rep, pid, "MC_C07", "MC_C07_tiny.cfg", cpath, part="mc_room", heap="16g", stack="1g", timeout=5400)
-    # forks made by one server on a stale view: events with and without a power-level ancestor in conflict
-    n2, _ = vlib.stream_cases(rep, pid, "MC_C07", "MC_C07_stale.cfg" if tier == "thorough" else "MC_C07_stale1.cfg", cpath,
-                              part="mc_room_stale", append=True, heap="16g", stack="1g", timeout=5400)
-    # restricted rooms in the versions that introduced them (restricted joins racing bans of the authorising user)
-    for v in ((8, 9) if tier == "thorough" else (8,)):
-        vlib.stream_cases(rep, pid, "MC_C07", "MC_C07_restricted%d.cfg" % v, cpath, part="mc_room_restricted%d" % v, append=True,
-                          heap="16g", stack="1g", timeout=5400)
-    # one sender with different power levels on the two branches of a fork (per-event, not per-sender, power in the power ordering)
-    vlib.stream_cases(rep, pid, "MC_C07", "MC_C07_powerfork2.cfg" if tier == "thorough" else "MC_C07_powerfork.cfg", cpath,
-                      part="mc_room_powerfork", append=True, heap="16g", stack="1g", timeout=5400)
+    thorough = tier == "thorough"
+    parts = [
+        # every behaviour of two further events on the richer base rooms
+        ("mc_room", "MC_C07_tiny.cfg"),
+        # forks made by one server on a stale view: events with and without a power-level ancestor in conflict
+        ("mc_room_stale", "MC_C07_stale.cfg" if thorough else "MC_C07_stale1.cfg"),
+        # restricted rooms in the versions that introduced them (restricted joins racing bans of the authorising user)
+        ("mc_room_restricted8", "MC_C07_restricted8.cfg"),
+        # one sender with different power levels on the two branches of a fork (per-event, not per-sender, power in the power ordering)
+        ("mc_room_powerfork", "MC_C07_powerfork2.cfg" if thorough else "MC_C07_powerfork.cfg"),
+        # resolve is defined for any collection of states: every pair and triple of states of the DAG (three-way merges, a state
+        # and its own ancestor, superseded power levels that only occur in auth chains, a merge merged again with one branch)
+        ("mc_room_subsets", "MC_C07_subsets.cfg"),
+        # ... and every pair with two further events on the small base rooms (a state against the state before a join / leave
+        # pair whose timestamps are inverted, ...); the pending merges of these base rooms are included
+        ("mc_room_pairs2", "MC_C07_pairs2.cfg"),
+    ]
+    if thorough:
+        parts.append(("mc_room_restricted9", "MC_C07_restricted9.cfg"))
+    # the configurations are independent: run them side by side with a few TLC workers each
+    import concurrent.futures
+    per = max(2, int(os.environ.get("VERIF_TLC_WORKERS", "16")) // 4)
+
+    def one(pc):
+        part, cfg = pc
+        path = os.path.join(wd, "cases_%s.ndjson" % part)
+        vlib.stream_cases(rep, pid, "MC_C07", cfg, path, part=part, heap="12g", stack="1g", timeout=5400, workers=per)
+        return path
+    with concurrent.futures.ThreadPoolExecutor(max_workers=4) as ex:
+        paths = list(ex.map(one, parts))
+    with open(cpath, "w") as g:
+        for pth in paths:
+            with open(pth) as f:
+                for ln in f:
+                    g.write(ln)
+            os.remove(pth)
     # de-duplicate merges (the same merge is pending in many states)
     seen = set()
     upath = os.path.join(wd, "cases_unique.ndjson")
@@ -59,7 +84,7 @@ def slim(c):
 
 
 def run(rep, tier):
-    n = nontriv = 0
+    n = nontriv = nconn = 0
     for c, o in stream(rep, "C07", tier, 1):
         n += 1
         if c["full"]:
@@ -69,20 +94,32 @@ def run(rep, tier):
             continue
         if c["full"] and sorted(o.get("full", [])) != sorted(c["full"]):
             rep.violation("stateres/full-conflicted-set", {"case": slim(c), "expected": sorted(c["full"]), "observed": o.get("full")})
-        if c["full"] and o.get("power", []) != c["power"]:
-            rep.violation("stateres/reverse-topological-power-order", {"case": slim(c), "expected": c["power"], "observed": o.get("power")})
-        rest_ok = (not c["full"]) or o.get("rest", []) == c["rest"]
+        # Intermediate orders.  Besides the text of the specification two readings are accepted for the *lists* as long as the
+        # resolved state is the one of the text: the connected reading of the power set (what the reference implementation does)
+        # -- and the recorded defect of the mainline position is recognised as such, never silently accepted.
         res_ok = st(o["resolved"]) == st(c["resolved"])
-        if not rest_ok or not res_ok:
+        lists = (o.get("power", []), o.get("rest", []))
+        if not c["full"]:
+            if not res_ok:
+                rep.violation("stateres/resolved-state", {"case": slim(c), "expected": c["resolved"], "observed": o["resolved"]})
+        elif lists == (c["power"], c["rest"]) and res_ok:
+            pass
+        elif lists == (c["variants"][0]["power"], c["variants"][0]["rest"]) and res_ok and st(c["variants"][0]["resolved"]) == st(c["resolved"]):
+            nconn += 1
+        elif ((lists == (c["power"], c["rest_oldest"]) and st(o["resolved"]) == st(c["resolved_oldest"])) or
+              (lists == (c["variants"][1]["power"], c["variants"][1]["rest"]) and st(o["resolved"]) == st(c["variants"][1]["resolved"])
+               and st(c["variants"][0]["resolved"]) == st(c["resolved"]))):
             # the one recorded defect: events without a power-level ancestor are given the position of the oldest
             # mainline event instead of infinity; everything else must still match that variant exactly
-            if o.get("rest", []) == c["rest_oldest"] and st(o["resolved"]) == st(c["resolved_oldest"]):
-                rep.violation(KNOWN, {"case": slim(c), "spec_order": c["rest"], "observed_order": o.get("rest"),
-                                      "spec_resolved": c["resolved"], "observed_resolved": o["resolved"]})
-            elif not rest_ok:
-                rep.violation("stateres/mainline-order", {"case": slim(c), "expected": c["rest"], "observed": o.get("rest")})
-            else:
-                rep.violation("stateres/resolved-state", {"case": slim(c), "expected": c["resolved"], "observed": o["resolved"]})
+            rep.violation(KNOWN, {"case": slim(c), "spec_order": c["rest"], "observed_order": o.get("rest"),
+                                  "spec_resolved": c["resolved"], "observed_resolved": o["resolved"]})
+        elif lists[0] != c["power"] and lists[0] != c["variants"][0]["power"]:
+            rep.violation("stateres/reverse-topological-power-order", {"case": slim(c), "expected": c["power"], "observed": o.get("power")})
+        elif lists[1] != c["rest"] and lists[1] != c["variants"][0]["rest"]:
+            rep.violation("stateres/mainline-order", {"case": slim(c), "expected": c["rest"], "observed": o.get("rest")})
+        else:
+            rep.violation("stateres/resolved-state", {"case": slim(c), "expected": c["resolved"], "observed": o["resolved"],
+                                                      "connected_reading_resolved": c["variants"][0]["resolved"]})
         if n == 50:
             rep.sample({"merge": slim(c), "expected": {k: c[k] for k in ("full", "power", "rest", "resolved")}, "observed": {k: o.get(k) for k in ("full", "power", "rest", "resolved")}})
     # topological sort
@@ -91,6 +128,7 @@ def run(rep, tier):
     for c, o in zip(cases, obs):
         if o.get("order") != c["order"]:
             rep.violation("toposort/wrong-order", {"case": c, "observed": o})
+    rep.part("replay", merges=n, lists_following_the_connected_reading_of_the_power_set=nconn)
     rep.cov["evaluations"] = n + len(cases)
     rep.cov["distinct_nontrivial"] = nontriv + len(cases)
     rep.cov["traces_validated_against_impl"] = n + len(cases)
